@@ -703,7 +703,14 @@ func (cr *ConRun) runTxn() {
 	nk := int32(rows)
 	nTxn := cfg.Clients
 	wal := cfg.Workload == "txnwal"
-	progs := genProgs(wr, nTxn, rows, &tok, &nk, !wal && wr.Chance(0.3))
+	var progs []TxnProg
+	if !wal && wr.Chance(0.25) {
+		progs = genDuel(wr, rows, &tok, wr.Chance(0.3))
+		nTxn = 2
+		cr.stat("txn_duel_runs", 1)
+	} else {
+		progs = genProgs(wr, nTxn, rows, &tok, &nk, !wal && wr.Chance(0.3))
+	}
 	hist := make([]HTxn, nTxn)
 	var rec *disk.SimRecorder
 	heapPages := map[int32]bool{0: true, 1: true}
